@@ -117,3 +117,9 @@ func debugVolatileDiff(a, b *World) {
 		}
 	}
 }
+
+func debugSeizeErr(w *World, id uint64) string {
+	cctx, _ := w.WCtx().CacheContext()
+	err := w.App.NewliqKeeper.LiquidateIndividualBorrow(cctx, id, "", false)
+	return fmt.Sprint(err)
+}
